@@ -76,7 +76,7 @@ Definition ex_t : tbl := [([VInt 1; VStr [Byte.x78]], [VInt 1; VStr [Byte.x78]; 
 Definition ex_u (r : row) : row := match r with [a; b; _] => [a; b; VInt 5%Z] | _ => r end.
 Definition ex_tx : list rstmt :=
   [RUpd [[VInt 1; VStr [Byte.x78]]]%Z ex_u [0; 1; 2];
-   RIns [([VInt 7; VStr [Byte.x71]], [VInt 7; VStr [Byte.x71]; VInt 1])]%Z (Some [[VInt 7; VStr [Byte.x71]]]%Z) 0%Z [0; 1; 2];
+   RIns [([VInt 7; VStr [Byte.x71]], [VInt 7; VStr [Byte.x71]; VInt 1])]%Z (Some [[VInt 7; VStr [Byte.x71]]]%Z) (0, 1)%Z [0; 1; 2];
    RDel [[VInt 2; VStr [Byte.x79]]]%Z].
 
 Example C03_cover_nonvacuous :
